@@ -3,10 +3,11 @@
 import glob, json, os, subprocess
 V = "/verif"
 props = [json.loads(l)["id"] for l in open(f"{V}/properties.jsonl")]
+CLAIMED = set(open(f"{V}/props/claimed.txt").read().split()) if os.path.exists(f"{V}/props/claimed.txt") else set()
 claimed = {}
 for p in sorted(glob.glob(f"{V}/props/C*.json")):
     m = json.load(open(p))
-    if m.get("claimed", True):
+    if m.get("claimed", True) and m["id"] in CLAIMED:
         claimed[m["id"]] = m
 na_path = f"{V}/props/not_applicable.json"
 na = json.load(open(na_path)) if os.path.exists(na_path) else {}
